@@ -13,6 +13,7 @@ theorem display_eq (fmt : F → String) (s : PercentagePriceOscillator F) :
 theorem default_eq :
     (default_ : Option (PercentagePriceOscillator F)) = some (fresh 12 26 9) := by
   unfold default_
+  try simp only [gen_helper]
   rw [new_eq]
   simp [unwrap]
 
